@@ -89,7 +89,17 @@ def special_label_instance(label, role, k, rng):
         else:               # (0,(2,(1))X)
             nested = [None, None, None, [[None, 0, ln(1), []], [special, None, ln(8), [[None, 2, ln(4), []], [None, None, ln(2), [[None, 1, ln(9), []]]]]]]]
         trees.append({"nested": nested, "rooted": [-1, 1, 0][(k + t) % 3], "weight": None})
-    return {"ns": ns, "trees": trees}
+    inst = {"ns": ns, "trees": trees}
+    h = k % 5               # namespace history: fresh / hole then late addition / reversed / sorted / hole + reversed
+    if h == 1:
+        inst["nsops"] = [["add", 0], ["tmp"], ["add", 1], ["rm"], ["add", 2]]
+    elif h == 2:
+        inst["nsops"] = [["add", 2], ["add", 1], ["add", 0], ["reverse"]]
+    elif h == 3:
+        inst["nsops"] = [["sort"]]
+    elif h == 4:
+        inst["nsops"] = [["tmp"], ["add", 2], ["tmp"], ["add", 0], ["rm"], ["add", 1], ["reverse"]]
+    return inst
 
 
 def gen_token_cases(states, quick):
@@ -139,6 +149,11 @@ def gen_model_cases(states):
         if not X.distinct_up_to_case(labs):
             inst = X.inst_from_model(m, 0)
         o = dict(m["o"])
+        acc = o.pop("acc", None)
+        if acc:
+            ops = X.nsops_from_acc(list(acc)[:len(inst["ns"])])
+            if ops:
+                inst["nsops"] = ops
         cfg = {"schema": m["schema"], "o": o}
         if len(inst["trees"]) == 1 and k % 3 == 0:
             cfg["api"] = "tree"
@@ -194,6 +209,69 @@ def gen_sweep_cases(quick):
     return cases
 
 
+KEYWORDS = ["END", "End", "end", "ENDBLOCK", "BEGIN", "TREE", "TREES", "TAXA", "TAXLABELS", "TRANSLATE", "LINK", "TITLE",
+            "DIMENSIONS", "NTAX", "MATRIX", "FORMAT", "UTREE", "#NEXUS"]
+
+
+def gen_keyword_cases():
+    """Labels that are whole NEXUS keywords: as taxon label first / in the middle / last in the namespace and as
+    internal (inner and root) label; a later taxon of the namespace is not on the trees, and the
+    trees list their leaves against the namespace order."""
+    cases = []
+    k = 0
+    for kw in KEYWORDS:
+        for pos in ("first", "middle", "last", "internal"):
+            k += 1
+            ns = list(PLAIN)                    # 4 taxa; the one at index 3 (or 2 when the keyword is last) stays unused
+            special = None
+            if pos == "first":
+                ns[0] = kw
+                used = [2, 1, 0]
+            elif pos == "middle":
+                ns[1] = kw
+                used = [2, 1, 0]
+            elif pos == "last":
+                ns[3] = kw
+                used = [3, 1, 0]
+            else:
+                special = kw
+                used = [2, 1, 0]
+            t1 = [special, None, None, [[None, used[0], 1, []], [special, None, 2.5e-07, [[None, used[1], None, []], [None, used[2], 3, []]]]]]
+            t2 = [None, None, 0.5, [[None, used[2], 1, []], [None, used[0], 2, []], [None, used[1], 7.25, []]]]
+            inst = {"ns": ns, "trees": [{"nested": t1, "rooted": 1, "weight": None}, {"nested": t2, "rooted": [-1, 0][k % 2], "weight": None}]}
+            if k % 3 == 1:
+                inst["nsops"] = [["add", 0], ["tmp"], ["add", 1], ["add", 2], ["rm"], ["add", 3]]
+            cfgs = all_configs([COMBOS[0], COMBOS[1 + k % 3]])
+            cases.append({"kind": "keyword-label", "keyword": kw, "position": pos, "inst": inst, "configs": cfgs})
+    return cases
+
+
+def rand_nsops(rng, n):
+    """A random namespace history over n taxa: placeholders added in between and removed at a random moment
+    (so that later taxa are added after a removal), then possibly sorted or reversed."""
+    r = rng.random()
+    if r < 0.5 or n == 0:
+        return None
+    order = list(range(n))
+    if rng.random() < 0.3:
+        rng.shuffle(order)
+    ops = []
+    rm_at = rng.randint(1, n)
+    for j, i in enumerate(order):
+        if j == rm_at:
+            ops.append(["rm"])
+        ops.append(["add", i])
+        if rng.random() < 0.4:
+            ops.append(["tmp"])
+    ops.append(["rm"])
+    x = rng.random()
+    if x < 0.25:
+        ops.append(["reverse"])
+    elif x < 0.5:
+        ops.append(["sort"])
+    return ops
+
+
 def rand_label(rng, maxlen=12):
     style = rng.random()
     n = rng.randint(1, maxlen)
@@ -235,7 +313,8 @@ def gen_random_case(rng, k, tmpdir):
     def internals(nd):
         return (1 if nd[3] else 0) + sum(internals(c) for c in nd[3])
     n_int_max = max([internals(s) for s, _ in shapes] + [0])
-    ns = rand_labels(rng, nleaves + (n_int_max if inttaxa else 0))
+    n_unused = rng.choice([0, 0, 1, 3])                  # taxa of the namespace that are on no tree
+    ns = rand_labels(rng, nleaves + (n_int_max if inttaxa else 0) + n_unused)
     suprooting = rng.random() < 0.25
     uniform_r = rng.choice([-1, 0, 1])
     weights = rng.random() < 0.3
@@ -243,7 +322,7 @@ def gen_random_case(rng, k, tmpdir):
     for shape, nl in shapes:
         leaf_taxa = rng.sample(range(nleaves), nl)
         it = iter(leaf_taxa)
-        int_it = iter(range(nleaves, len(ns)))
+        int_it = iter(range(nleaves, len(ns) - n_unused))
 
         def fill(nd):
             nd[2] = rng.choice(lens_pool)
@@ -274,8 +353,11 @@ def gen_random_case(rng, k, tmpdir):
         if rng.random() < 0.15:
             cfg["route"] = "file"
         cfgs.append(cfg)
-    return {"kind": "random", "k": k, "inst": {"ns": ns, "trees": trees}, "configs": cfgs, "tmpdir": tmpdir,
-            "tok": ns[:2]}
+    inst = {"ns": ns, "trees": trees}
+    ops = rand_nsops(rng, len(ns))
+    if ops:
+        inst["nsops"] = ops
+    return {"kind": "random", "k": k, "inst": inst, "configs": cfgs, "tmpdir": tmpdir, "tok": ns[:2]}
 
 
 # ---------------------------------------------------------------------------------------------- the check
@@ -321,6 +403,9 @@ def run(ctx):
     jobs.append(lambda: ctx.model("MC_NexusTokenOffset", "MC_NexusTokenOffset_%s.cfg" % tier, workers=4, env=JENV, heap="3g", timeout=6000))
     jobs.append(lambda: ctx.model("MC_NexusTokenOffset", "BlockLookahead_NexusToken.cfg", expect_violation="OffsetIndependentTree",
                                   count=False, workers=1, env=JENV, heap="2g"))
+    for cfgname in ("KeywordEndsTaxlabels_NewickRoundTrip.cfg", "ReusedAccession_NewickRoundTrip.cfg"):
+        jobs.append(lambda cfgname=cfgname: ctx.model("MC_NewickRoundTrip", cfgname, expect_violation="RoundTripHolds", count=False,
+                                                      workers=1, env=JENV, heap="2g"))
     for name in ("protect", "quoted", "leadsemi", "attr", "len", "empty"):
         jobs.append(lambda name=name: ctx.model("MC_NewickRoundTrip", "AsShipped_NewickRoundTrip_%s.cfg" % name,
                                                 expect_violation="RoundTripHolds", count=False, workers=1, env=JENV, heap="2g"))
@@ -352,6 +437,9 @@ def run(ctx):
     n_char = len(cases) - n_tok
     cases += gen_model_cases(tree_states)
     n_tree = len(cases) - n_tok - n_char
+    kwcases = gen_keyword_cases()
+    n_kw = len(kwcases)
+    cases += kwcases
     sweep = gen_sweep_cases(q)
     n_sweep = len(sweep)
     n_sweep_rt = sum(len(c["configs"]) for c in sweep)
@@ -386,14 +474,16 @@ def run(ctx):
                 "number-like and case-variant labels in every order with/without TRANSLATE and internal taxa, punctuation labels x option "
                 "pairs, single-node trees whose only label is a punctuation character in lists of 1-3 x rooting x weights, lists of 0..n trees x rooting x weights x suppress_rooting+reader rooting); (4) %d seeded random instances "
                 "(labels <= 12 characters from the full alphabet, trees <= 10 leaves, lists of 0-4 trees, random consistent options, "
-                "Tree and TreeList API, string and file routes); (5) a padding sweep (see pad_sweep) and, on the model, MC_NexusTokenOffset: "
+                "Tree and TreeList API, string and file routes, random namespace histories and unused taxa); (4b) %d keyword-like labels "
+                "(END, end, ENDBLOCK, TREE, ..., #NEXUS) x position first/middle/last/internal; namespaces with a history (taxa removed, "
+                "added later, reversed, sorted) in (1), (2), (3 'history'), (4); (5) a padding sweep (see pad_sweep) and, on the model, MC_NexusTokenOffset: "
                 "token identity is independent of the stream offset for every pad length.  distinct_nontrivial = distinct (schema, options, api, label set, shapes, "
                 "rooting states, length-presence pattern) among round trips with a non-alphanumeric label or a list length other than 1"
-                % (2 if q else 3, n_tok, len(X.NONASCII_SAMPLE), n_char, n_tree, nrand))
+                % (2 if q else 3, n_tok, len(X.NONASCII_SAMPLE), n_char, n_tree, nrand, len(KEYWORDS)))
     ctx.exhaustive = True
     ctx.extra["exhaustive_domain"] = ("the state spaces of MC_NexusToken_%s and MC_NewickRoundTrip_%s (every state replayed on the real "
                                       "library), and every printable ASCII character + TAB in 4 contexts x 2 roles" % (tier, tier))
-    ctx.extra["cases_by_kind"] = {"token-model": n_tok, "char-context": n_char, "tree-model": n_tree, "pad-sweep": n_sweep, "random": nrand}
+    ctx.extra["cases_by_kind"] = {"token-model": n_tok, "char-context": n_char, "tree-model": n_tree, "keyword-label": n_kw, "pad-sweep": n_sweep, "random": nrand}
     ctx.extra["pad_sweep"] = ("%d round trips: delicate labels %r / %r, document preceded by a writer-produced comment of every length that puts "
                               "each character of the document on both sides of the stream offsets %r"
                               % (n_sweep_rt, DELICATE_TAXA, DELICATE_INTERNAL, list(BOUNDARIES_QUICK if q else BOUNDARIES_THOROUGH)))
